@@ -18,7 +18,7 @@ void* TemporalStorage::assignComponent(World& world, Entity entity, ComponentId 
     auto& command = emplaceItem(entity, Action::kAssignComponent);
     command.type_info = &component_info;
     command.component_id = id;
-    command.ptr = allocate(static_cast<uint32_t>(component_info.size));
+    command.ptr = allocate(static_cast<uint32_t>(component_info.size), static_cast<uint32_t>(component_info.align));
     if (!skip_constructor && component_info.functions.create) {
         component_info.functions.create(command.ptr, entity, world);
     }
@@ -63,17 +63,27 @@ void TemporalStorage::clear() {
     total_size_ = 0u;
 }
 
-std::byte* TemporalStorage::allocate(uint32_t size) {
-    if (chunks_.empty() || chunks_.back().free_space < size) {
-        if (target_chunk_size_ < size) {
-            target_chunk_size_ = size;
+std::byte* TemporalStorage::allocate(uint32_t size, uint32_t align) {
+    // number of bytes to skip so that the next free byte of the chunk is aligned
+    const auto padding = [align](const DataChunk& chunk) noexcept {
+        if (align < 2u) {
+            return 0u;
+        }
+        const auto address = reinterpret_cast<uintptr_t>(chunk.data.get()) + (chunk.capacity - chunk.free_space);
+        return static_cast<uint32_t>((align - address % align) % align);
+    };
+    if (chunks_.empty() || chunks_.back().free_space < size + padding(chunks_.back())) {
+        const uint32_t required = size + align; // room for the worst-case padding
+        if (target_chunk_size_ < required) {
+            target_chunk_size_ = required;
         }
         chunks_.emplace_back(target_chunk_size_);
     }
     auto& chunk = chunks_.back();
-    const auto offset = chunk.capacity - chunk.free_space;
-    chunk.free_space -= size;
-    total_size_ += size;
+    const auto pad = padding(chunk);
+    const auto offset = chunk.capacity - chunk.free_space + pad;
+    chunk.free_space -= size + pad;
+    total_size_ += size + pad;
     return chunk.data.get() + offset;
 }
 
